@@ -1,9 +1,9 @@
 """Field-level contracts: symbolic Field states (Inv(Field) of DESIGN §3), the constructor contract used
 modularly by every operator, and the operator / validity contracts of C03, C08, C15, C06."""
-import z3
+import z3, fractions
 from pyvc.core import *
 from pyvc.contracts import Contract, State, conj, disj
-from pyvc.states import inp, sym_mesh, _eq, old_attr, snapshot, DIMS
+from pyvc.states import inp, sym_mesh, _eq, old_attr, snapshot, DIMS, tofloat
 from pyvc.ndarr import NDArr, NDInterp, dim_eq
 
 
@@ -39,6 +39,42 @@ def sym_field(E, ndim, nvdim, prefix='f', mesh=None, vdims='default', mapping='d
     f = Obj('Field', {'_mesh': mesh, '_nvdim': nvdim, 'dtype': dtype, '_unit': unit, '_valid': val, '_array': arr,
                       '_vdims': list(vd) if vd is not None else None, '_vdim_mapping': mp})
     return f, assume
+
+
+def user_callable(E, name, ndim, nvdim, kind='float'):
+    """a user-supplied function of position: nvdim uninterpreted functions of the ndim coordinates"""
+    sort = z3.BoolSort() if kind == 'bool' else z3.RealSort()
+    fs = [z3.Function(f'{name}_{c}', *([z3.RealSort()] * ndim), sort) for c in range(nvdim)]
+    val = getattr(E, 'valuation', None)
+
+    def call(a, k):
+        p = E.iter_(a[0])
+        if val is not None:
+            # concrete replay / cross-check: a fixed affine function of position
+            out = []
+            for c in range(nvdim):
+                r = fractions.Fraction(c + 1)
+                for j, x in enumerate(p):
+                    r = r + fractions.Fraction(j + 2) * (x if isinstance(x, fractions.Fraction) else fractions.Fraction(float(tofloat(x))))
+                out.append((r > 0) if kind == 'bool' else r)
+        else:
+            out = [Sym(f(*[R(x) for x in p]), kind, False) for f in fs]
+        return out[0] if nvdim == 1 else tuple(out)
+    b = Builtin(name, call)
+    b.fs, b.kind, b.nvdim, b.ndim = fs, kind, nvdim, ndim
+
+    def realize(rz, b=b):
+        def real_fn(p):
+            r = []
+            for c in range(nvdim):
+                acc = float(c + 1)
+                for j, x in enumerate(p):
+                    acc = acc + float(j + 2) * float(x)
+                r.append((acc > 0) if kind == 'bool' else acc)
+            return r[0] if nvdim == 1 else tuple(r)
+        return real_fn
+    b.__realize__ = realize
+    return b
 
 
 def cell_index(E, field_or_n, name='ix'):
@@ -116,6 +152,8 @@ class FieldInit(Contract):
                 {'ndim': 2, 'nvdim': 2, 'value': 'array', 'valid': 'array', 'mapping': 'badkeys'},
                 {'ndim': 2, 'nvdim': 2, 'value': 'str', 'valid': 'true'},
                 {'ndim': 2, 'nvdim': 0, 'value': 'number', 'valid': 'true'}]
+        for d in (1, 2, 3) if tier == 'quick' else (1, 2, 3, 4):
+            out += [{'ndim': d, 'nvdim': 3, 'value': 'callable', 'valid': 'true'}, {'ndim': d, 'nvdim': 1, 'value': 'callable', 'valid': 'callable'}]
         return out
 
     def pre_state(s, E, cfg):
@@ -137,9 +175,11 @@ class FieldInit(Contract):
                 assume.append(R(value) != 0)
         elif vk == 'zero':
             value = 0
+        elif vk == 'callable':
+            value = user_callable(E, 'userval', d, nv)
         else:
             value = 'abc'
-        valid = E.sym_array('val_V', n, 'bool') if cfg['valid'] == 'array' else True
+        valid = E.sym_array('val_V', n, 'bool') if cfg['valid'] == 'array' else (user_callable(E, 'uservalid', d, 1, 'bool') if cfg['valid'] == 'callable' else True)
         kw = {'nvdim': nv, 'value': value, 'valid': valid, 'unit': 'T'}
         dims = mesh.attrs['_region'].attrs['_dims']
         vd = cfg.get('vdims')
@@ -177,8 +217,8 @@ class FieldInit(Contract):
     def requires(s, E, st):
         return [isinstance(st.mesh, Obj) and st.mesh.cls == 'Mesh', st.norm is None,
                 isinstance(st.nvdim, int), st.unit is None or isinstance(st.unit, str),
-                isinstance(st.value, (NDArr, Sym, int, float, tuple, list, Vec, str)) or type(st.value).__name__ == 'Fraction',
-                isinstance(st.valid, (NDArr, bool))]
+                isinstance(st.value, (NDArr, Sym, int, float, tuple, list, Vec, str, Builtin)) or type(st.value).__name__ == 'Fraction',
+                isinstance(st.valid, (NDArr, bool, Builtin))]
 
     # -- shape classification of the value specification
     def _n(s, E, st):
@@ -189,6 +229,8 @@ class FieldInit(Contract):
         v, nv, n = st.value, st.nvdim, s._n(E, st)
         if isinstance(v, str):
             return 'str', None
+        if isinstance(v, Builtin):
+            return 'callable', None
         if isinstance(v, NDArr):
             sh = v.shape
             if nv == 1 and len(sh) == len(n) and all(dim_eq(E, a, b) is True for a, b in zip(sh, n)):
@@ -270,7 +312,14 @@ class FieldInit(Contract):
         idx = E.skolem(n + [st.nvdim])
         kind, _ = s.value_kind(E, st)
         v = st.value
-        if kind == 'full':
+        centre = None
+        if kind == 'callable' or isinstance(st.valid, Builtin):
+            # the cell centre as defined by Mesh.index2point (its contract is discharged under C01)
+            centre = E.call_method(st.mesh, 'index2point', [tuple(idx[:-1])], {})
+        if kind == 'callable':
+            r = v.f([centre], {})
+            want = E.select_list(list(r), idx[-1]) if isinstance(r, tuple) else r
+        elif kind == 'full':
             want = v.at(E, idx)
         elif kind == 'n':
             want = v.at(E, idx[:-1])
@@ -280,8 +329,11 @@ class FieldInit(Contract):
         else:
             want = v
         out.append(('array[idx, c] == value specification at (idx, c)', R(arr.at(E, idx)) == R(want)))
-        wv = st.valid.at(E, idx[:-1]) if isinstance(st.valid, NDArr) else st.valid
-        out.append(('valid[idx] == given validity', B(val.at(E, idx[:-1])) == B(wv)))
+        if isinstance(st.valid, Builtin):
+            wv = st.valid.f([centre], {})
+        else:
+            wv = st.valid.at(E, idx[:-1]) if isinstance(st.valid, NDArr) else st.valid
+        out.append(('valid[idx] == given validity (evaluated at the cell centre for a function)', B(val.at(E, idx[:-1])) == B(wv)))
         vd = s._vdims(st)
         out.append(('vdims: given labels or defaults', _eq(E, f.attrs.get('_vdims'), vd)))
         out.append(('vdim_mapping: given mapping or default', f.attrs.get('_vdim_mapping') == s._mapping(st, vd)))
@@ -495,4 +547,273 @@ class BinaryOp(Contract):
         ref = f if f.attrs['_nvdim'] == nv else (o if isinstance(o, Obj) else None)
         if ref is not None:
             out += same_meta(E, result, ref)
+        return out
+
+
+# ====================================================================== generic "method returning a field" contract
+class FieldMethod(Contract):
+    """f.<method/property>(*args) -> Field ; `spec(E, st, result, idx)` yields the per-cell clauses"""
+    nvs = (1, 3)
+    needs_nv = None          # restrict to these nvdim
+    extra_cfg = ()
+    unit_kept = False
+    meta = 'same'            # 'same' | 'scalar' | None
+    result_nvdim = 'same'    # 'same' | int
+
+    def __init__(s, meth, prop=False):
+        s.meth = meth
+        s.name = f'Field.{meth}'
+        s.qual = ('Field', meth)
+        s.func = f'Field.{meth}'
+
+    def configs(s, tier):
+        nds = (1, 2, 3) if tier == 'quick' else (1, 2, 3, 4)
+        nvs = s.needs_nv or ((1, 3) if tier == 'quick' else (1, 2, 3, 4))
+        return [{'ndim': d, 'nvdim': nv} for d in nds for nv in nvs] + list(s.extra_cfg)
+
+    def make_field(s, E, cfg, **kw):
+        nv, d = cfg['nvdim'], cfg['ndim']
+        vd = ['p', 'q', 'r', 's'][:nv] if nv > 1 else None
+        mp = dict(zip(vd, reversed(DIMS[:d]))) if (vd and nv == d) else {}
+        return sym_field(E, d, nv, unit='T', vdims=vd, mapping=mp, **kw)
+
+    def make_args(s, E, cfg, f, assume):
+        return [], {}
+
+    def pre_state(s, E, cfg):
+        f, assume = s.make_field(E, cfg)
+        args, kw = s.make_args(E, cfg, f, assume)
+        st = State(f, args, kw)
+        st.assume = assume
+        st.cfg = cfg
+        return st
+
+    def frame(s, E, st):
+        return [('self', st.self)] + [(f'arg{j}', a) for j, a in enumerate(st.args) if isinstance(a, Obj)]
+
+    def operands(s, st):
+        return [st.self] + [a for a in st.args if isinstance(a, (Obj, NDArr))]
+
+    def post(s, E, st, result):
+        f = st.self
+        out, ok = field_result_base(E, st, result, s.operands(st))
+        if not ok:
+            return out
+        nv = f.attrs['_nvdim'] if s.result_nvdim == 'same' else s.result_nvdim
+        out.append(('number of components', result.attrs['_nvdim'] == nv))
+        idx = cell_index(E, f) + E.skolem([nv], 'c')
+        out += s.spec(E, st, result, idx)
+        if s.meta == 'same':
+            out += same_meta(E, result, f, unit=s.unit_kept)
+        elif s.unit_kept:
+            out.append(('unit as the operand', result.attrs.get('_unit') == f.attrs.get('_unit')))
+        return out
+
+    # helpers for specs
+    def A(s, E, f, cell, c):
+        return f.attrs['_array'].at(E, list(cell) + [c])
+
+    def V(s, E, f, cell):
+        return B(f.attrs['_valid'].at(E, list(cell)))
+
+    def valid_same(s, E, st, result, idx):
+        return ('valid[idx] == self.valid[idx]', B(result.attrs['_valid'].at(E, idx[:-1])) == s.V(E, st.self, idx[:-1]))
+
+
+class Component(FieldMethod):
+    """f.<label> : the matching column as a one-component field"""
+    needs_nv = (2, 3)
+    result_nvdim = 1
+    meta = None
+    unit_kept = True
+
+    def __init__(s):
+        FieldMethod.__init__(s, '__getattr__')
+
+    def configs(s, tier):
+        base = FieldMethod.configs(s, tier)
+        out = []
+        for c in base:
+            for comp in range(c['nvdim']):
+                out.append(dict(c, comp=comp))
+        return out + [{'ndim': 2, 'nvdim': 3, 'comp': 'missing'}, {'ndim': 2, 'nvdim': 1, 'comp': 'missing'}]
+
+    def make_args(s, E, cfg, f, assume):
+        if cfg['comp'] == 'missing':
+            return ['nolabel'], {}
+        return [f.attrs['_vdims'][cfg['comp']]], {}
+
+    def raises(s, E, st):
+        vd = st.self.attrs['_vdims']
+        return [('AttributeError', vd is None or st.args[0] not in vd)]
+
+    def spec(s, E, st, result, idx):
+        f = st.self
+        k = f.attrs['_vdims'].index(st.args[0])
+        out = [('array[idx, 0] == self.array[idx, position of the label]', R(result.attrs['_array'].at(E, idx[:-1] + [0])) == R(s.A(E, f, idx[:-1], k))),
+               s.valid_same(E, st, result, idx)]
+        mp = f.attrs['_vdim_mapping']
+        want = {st.args[0]: mp[st.args[0]]} if st.args[0] in mp else {}
+        # a one-component field without labels cannot hold a mapping (constructor rule): stays empty
+        out.append(('mapping of the component (none for an unlabelled scalar result)', result.attrs['_vdim_mapping'] in ({}, want)))
+        return out
+
+
+class NormGetter(FieldMethod):
+    result_nvdim = 1
+    meta = None
+    unit_kept = True
+
+    def __init__(s):
+        FieldMethod.__init__(s, 'norm')
+
+    def spec(s, E, st, result, idx):
+        f = st.self
+        nv = f.attrs['_nvdim']
+        r = R(result.attrs['_array'].at(E, idx[:-1] + [0]))
+        sq = z3.RealVal(0)
+        for l in range(nv):
+            x = R(s.A(E, f, idx[:-1], l))
+            sq = sq + x * x
+        return [('norm[idx] >= 0 and norm[idx]^2 == sum of squared components (Euclidean length)', z3.And(r >= 0, r * r == sq)),
+                s.valid_same(E, st, result, idx)]
+
+
+class Orientation(FieldMethod):
+    def __init__(s):
+        FieldMethod.__init__(s, 'orientation')
+
+    def spec(s, E, st, result, idx):
+        f = st.self
+        nv = f.attrs['_nvdim']
+        cell = idx[:-1]
+        sq = z3.RealVal(0)
+        osq = z3.RealVal(0)
+        for l in range(nv):
+            x = R(s.A(E, f, cell, l))
+            sq = sq + x * x
+            o = R(result.attrs['_array'].at(E, cell + [l]))
+            osq = osq + o * o
+        thr = z3.RealVal('1/100000000')
+        nonzero = sq > thr * thr            # |v| > 1e-8  (np.isclose(norm, 0) with atol 1e-8)
+        oc = R(result.attrs['_array'].at(E, idx))
+        return [('unit length where the field is longer than the 1e-8 threshold', z3.Implies(nonzero, osq == 1)),
+                ('zero where the field is within the threshold', z3.Implies(z3.Not(nonzero), oc == 0)),
+                ('orientation * length == field where non-zero (same direction)', z3.Implies(nonzero, oc * oc * sq == R(s.A(E, f, cell, idx[-1])) * R(s.A(E, f, cell, idx[-1])))),
+                ('orientation has the sign of the component', z3.Implies(nonzero, oc * R(s.A(E, f, cell, idx[-1])) >= 0)),
+                s.valid_same(E, st, result, idx)]
+
+
+class ComplexPart(FieldMethod):
+    """real / imag / conjugate / abs / phase on real-valued data (complex dtypes: bounded tier)"""
+
+    def __init__(s, meth):
+        FieldMethod.__init__(s, meth)
+        s.unit_kept = meth in ('real', 'imag', 'conjugate')
+
+    def spec(s, E, st, result, idx):
+        f = st.self
+        a = s.A(E, f, idx[:-1], idx[-1])
+        want = {'real': lambda: a, 'conjugate': lambda: a, 'imag': lambda: 0.0, 'abs': lambda: E.absv(a), 'phase': lambda: E.uf_app('angle', a)}[s.meth]()
+        return [(f'array[idx, c] == {s.meth}(self.array[idx, c])', R(result.attrs['_array'].at(E, idx)) == R(want)), s.valid_same(E, st, result, idx)]
+
+
+class ValidAsField(FieldMethod):
+    result_nvdim = 1
+    meta = None
+
+    def __init__(s):
+        FieldMethod.__init__(s, '_valid_as_field')
+
+    def spec(s, E, st, result, idx):
+        f = st.self
+        v = s.V(E, f, idx[:-1])
+        return [('array[idx, 0] is the validity flag', R(result.attrs['_array'].at(E, idx[:-1] + [0])) == z3.If(v, z3.RealVal(1), z3.RealVal(0)))]
+
+
+class TwoFieldOp(FieldMethod):
+    """dot / cross / __lshift__ / angle with a field or a constant vector"""
+
+    def __init__(s, meth):
+        FieldMethod.__init__(s, meth)
+        s.meta = None
+        s.result_nvdim = {'dot': 1, '__matmul__': 1, 'cross': 3, '__and__': 3, 'angle': 1}.get(meth, 'same')
+        if meth in ('cross', '__and__'):
+            s.needs_nv = (3,)
+
+    def configs(s, tier):
+        out = []
+        for c in FieldMethod.configs(s, tier):
+            for other in ('field', 'vector'):
+                out.append(dict(c, other=other))
+        out += [{'ndim': 2, 'nvdim': 3, 'other': 'field_other_mesh'}, {'ndim': 2, 'nvdim': 3, 'other': 'number' if s.meth != '__lshift__' else 'str'}]
+        if s.meth in ('cross', '__and__'):
+            out = [c for c in out if c['nvdim'] == 3]
+        return out
+
+    def make_args(s, E, cfg, f, assume):
+        d, nv, ok = cfg['ndim'], cfg['nvdim'], cfg['other']
+        mesh = f.attrs['_mesh']
+        if ok == 'field':
+            g, _ = sym_field(E, d, nv, prefix='g', mesh=mesh, assume=assume, vdims=(['u', 'v', 'w', 't'][:nv] if nv > 1 else None), mapping={})
+            return [g], {}
+        if ok == 'field_other_mesh':
+            g, _ = sym_field(E, d, nv, prefix='g', assume=assume)
+            r1, r2 = mesh.attrs['_region'].attrs, g.attrs['_mesh'].attrs['_region'].attrs
+            assume.append(R(r2['_pmin'].elems[0]) >= R(r1['_pmax'].elems[0]))
+            return [g], {}
+        if ok == 'vector':
+            return [tuple(inp(E, f'c{j}', 'float') for j in range(nv))], {}
+        if ok == 'number':
+            return [inp(E, 'c', 'float')], {}
+        return ['abc'], {}
+
+    def raises(s, E, st):
+        k = st.cfg['other']
+        if k == 'field_other_mesh':
+            return [('ValueError', True)]
+        if k in ('number', 'str'):
+            if s.meth == 'angle' and st.self.attrs['_nvdim'] == 1 and k == 'number':
+                return []
+            if s.meth == '__lshift__' and k == 'number':
+                return []
+            return [('TypeError', True)]
+        return []
+
+    def post(s, E, st, result):
+        f, o = st.self, st.args[0]
+        out, ok = field_result_base(E, st, result, s.operands(st))
+        if not ok:
+            return out
+        nv = f.attrs['_nvdim']
+        cell = cell_index(E, f)
+        A = lambda l: s.A(E, f, cell, l)
+        Bv = (lambda l: s.A(E, o, cell, l)) if isinstance(o, Obj) else (lambda l: list(o)[l])
+        res = result.attrs['_array']
+        if s.meth in ('dot', '__matmul__'):
+            acc = z3.RealVal(0)
+            for l in range(nv):
+                acc = acc + R(A(l)) * R(Bv(l))
+            out.append(('one component', result.attrs['_nvdim'] == 1))
+            out.append(('dot[idx] == sum over components of self[idx,l]*other[idx,l]', R(res.at(E, cell + [0])) == acc))
+        elif s.meth in ('cross', '__and__'):
+            out.append(('three components', result.attrs['_nvdim'] == 3))
+            for l in range(3):
+                l1, l2 = (l + 1) % 3, (l + 2) % 3
+                out.append((f'cross[idx,{l}] == self[{l1}]*other[{l2}] - self[{l2}]*other[{l1}]',
+                            R(res.at(E, cell + [l])) == R(A(l1)) * R(Bv(l2)) - R(A(l2)) * R(Bv(l1))))
+            out.append(('labels of the left operand', _eq(E, result.attrs['_vdims'], f.attrs['_vdims'])))
+        elif s.meth == '__lshift__':
+            onv = o.attrs['_nvdim'] if isinstance(o, Obj) else len(o)
+            out.append(('components of both operands', result.attrs['_nvdim'] == nv + onv))
+            for l in range(nv):
+                out.append((f'stacked[idx,{l}] == self[idx,{l}]', R(res.at(E, cell + [l])) == R(A(l))))
+            for l in range(onv):
+                out.append((f'stacked[idx,{nv + l}] == other[idx,{l}]', R(res.at(E, cell + [nv + l])) == R(Bv(l))))
+            if isinstance(o, Obj) and f.attrs['_vdims'] is not None and o.attrs['_vdims'] is not None:
+                out.append(('labels: concatenation when unique', _eq(E, result.attrs['_vdims'], f.attrs['_vdims'] + o.attrs['_vdims'])))
+        wv = s.V(E, f, cell)
+        if isinstance(o, Obj):
+            wv = z3.And(wv, s.V(E, o, cell))
+        out.append(('valid[idx] == AND of the operand validities', B(result.attrs['_valid'].at(E, cell)) == wv))
         return out
